@@ -338,3 +338,56 @@ TRUSTED_COMMON = [
     "hand-written Gallina model tied to /repo by differential correspondence on this run's cases",
     "Go harness (generators, canonicalisation of outputs) and the Coq-term emitter",
 ]
+
+
+def parse_sexp(line):
+    """The driver's output syntax: lists, bare atoms, quoted atoms with \\\\, \\" and \\xHH escapes.
+    Atoms come back as bytes, lists as Python lists."""
+    b = line.encode("latin-1") if isinstance(line, str) else line
+    pos = 0
+
+    def expr():
+        nonlocal pos
+        while pos < len(b) and b[pos] in b" \t":
+            pos += 1
+        if pos >= len(b):
+            raise ValueError("eof")
+        c = b[pos:pos + 1]
+        if c == b"(":
+            pos += 1
+            items = []
+            while True:
+                while pos < len(b) and b[pos] in b" \t":
+                    pos += 1
+                if pos >= len(b):
+                    raise ValueError("eof in list")
+                if b[pos:pos + 1] == b")":
+                    pos += 1
+                    return items
+                items.append(expr())
+        if c == b'"':
+            pos += 1
+            out = bytearray()
+            while True:
+                if pos >= len(b):
+                    raise ValueError("eof in string")
+                ch = b[pos:pos + 1]
+                if ch == b'"':
+                    pos += 1
+                    return bytes(out)
+                if ch == b"\\":
+                    if b[pos + 1:pos + 2] == b"x":
+                        out.append(int(b[pos + 2:pos + 4], 16))
+                        pos += 4
+                    else:
+                        out += b[pos + 1:pos + 2]
+                        pos += 2
+                else:
+                    out += ch
+                    pos += 1
+        st = pos
+        while pos < len(b) and b[pos] not in b' \t()"':
+            pos += 1
+        return b[st:pos]
+
+    return expr()
